@@ -626,11 +626,18 @@ func checkHeapInterface(p *Prog, r *Report) {
 	var nonEmpty *ssa.BasicBlock
 	eachInstr(ge, func(in ssa.Instruction) {
 		if i, ok := in.(*ssa.If); ok {
-			if b, ok := i.Cond.(*ssa.BinOp); ok && b.Op == token.GTR {
-				if c, ok := b.X.(*ssa.Call); ok && calleeName(&c.Call) == "(pkg/intermediate.TimeToExpirePriorityQueue).Len" {
-					if z, ok := constInt(b.Y); ok && z == 0 {
-						nonEmpty = i.Block().Succs[0]
-					}
+			// Len() > 0, Len() != 0, Len() >= 1, or the complement on the other edge (Len() == 0 ... else), either operand order
+			for _, cf := range cmpForms(i.Cond) {
+				c, ok := cf.X.(*ssa.Call)
+				if !ok || calleeName(&c.Call) != "(pkg/intermediate.TimeToExpirePriorityQueue).Len" {
+					continue
+				}
+				z, ok := constInt(cf.Y)
+				if !ok {
+					continue
+				}
+				if (z == 0 && (cf.Op == token.GTR || cf.Op == token.NEQ)) || (z == 1 && cf.Op == token.GEQ) {
+					nonEmpty = i.Block().Succs[cf.Succ]
 				}
 			}
 		}
@@ -672,9 +679,9 @@ func checkHeapInterface(p *Prog, r *Report) {
 		clamp := false
 		eachInstr(ge, func(in ssa.Instruction) {
 			if i, ok := in.(*ssa.If); ok {
-				if b, ok := i.Cond.(*ssa.BinOp); ok {
-					if z, ok := constInt(b.Y); ok && z == 0 && (b.Op == token.LSS || b.Op == token.LEQ || b.Op == token.GTR || b.Op == token.GEQ) {
-						if _, isAdd := b.X.(*ssa.BinOp); isAdd {
+				for _, cf := range cmpForms(i.Cond) {
+					if z, ok := constInt(cf.Y); ok && z == 0 && (cf.Op == token.LSS || cf.Op == token.LEQ || cf.Op == token.GTR || cf.Op == token.GEQ) {
+						if _, isAdd := cf.X.(*ssa.BinOp); isAdd {
 							clamp = true
 						}
 					}
